@@ -921,6 +921,14 @@ pub fn fuzz_entry(data: &[u8]) -> Res {
                 check_span_id_bytes(rest, cx)?;
                 check_flags_bytes(rest, cx)
             }
+            2 => {
+                // the first three bytes are fragment boundaries, the rest is the text
+                let (cuts, body) = rest.split_at(rest.len().min(3));
+                let mut cuts: Vec<usize> = cuts.iter().map(|b| *b as usize % 72).collect();
+                cuts.sort();
+                let text = String::from_utf8_lossy(body);
+                check_chunked_text(&text, &cuts, cx)
+            }
             _ => {
                 let text = String::from_utf8_lossy(rest);
                 check_any_text(&text, cx)
